@@ -20,6 +20,8 @@ from .rustscan import ScanError
 ROOT = os.path.dirname(os.path.dirname(os.path.abspath(__file__)))
 REPO = os.environ.get('VERIF_REPO', '/repo')
 BUILD = os.path.join(ROOT, 'build')
+EVDIR = os.environ.get('VERIF_EVIDENCE_DIR') or os.path.join(ROOT, 'evidence')
+RPDIR = os.path.join(os.environ['VERIF_EVIDENCE_DIR'], 'replays') if os.environ.get('VERIF_EVIDENCE_DIR') else os.path.join(ROOT, 'replays')
 
 
 def load_registry():
@@ -54,7 +56,7 @@ def run_verus_unit(unit_name, pid, tier, out):
         text = u.build()
     except (ScanError, T.TemplateError) as e:
         raise Undecided('%s: extraction/splice failed: %s' % (unit_name, e))
-    bdir = os.path.join(BUILD, unit_name)
+    bdir = os.path.join(BUILD, unit_name if REPO == '/repo' else unit_name + '_' + hashlib.sha1(REPO.encode()).hexdigest()[:8])
     os.makedirs(bdir, exist_ok=True)
     gpath = os.path.join(bdir, unit_name + '.rs')
     open(gpath, 'w').write(text)
@@ -130,9 +132,9 @@ def run_verus_unit(unit_name, pid, tier, out):
 
 
 def write_replay(pid, failure, backend, extra=None):
-    os.makedirs(os.path.join(ROOT, 'replays'), exist_ok=True)
+    os.makedirs(RPDIR, exist_ok=True)
     h = hashlib.sha1((failure['id'] + failure.get('detail', '')).encode()).hexdigest()[:10]
-    path = os.path.join(ROOT, 'replays', '%s_%s.json' % (pid, h))
+    path = os.path.join(RPDIR, '%s_%s.json' % (pid, h))
     doc = dict(property=pid, obligation=failure['id'], backend=backend, verifier_message=failure.get('message'),
                verifier_output=failure.get('rendered'), detail=failure.get('detail'), counterexample=None, replay=None)
     if extra:
@@ -229,8 +231,8 @@ def main(argv=None):
         cov['rule'] = 'one evaluation per obligation (harness check or contract clause); bounded harnesses enumerate symbolically every input within the stated bound'
     ev = dict(property_id=pid, tier=tier, seed=seed, level=level, coverage=cov, assumptions=assumptions,
               wall_s=round(wall, 2), violations=len(violations))
-    os.makedirs(os.path.join(ROOT, 'evidence'), exist_ok=True)
-    json.dump(ev, open(os.path.join(ROOT, 'evidence', pid + '.json'), 'w'), indent=1)
+    os.makedirs(EVDIR, exist_ok=True)
+    json.dump(ev, open(os.path.join(EVDIR, pid + '.json'), 'w'), indent=1)
     if nobl == 0:
         print('UNDECIDED property=%s: zero obligations generated (vacuity guard)' % pid)
         return 2
@@ -249,7 +251,22 @@ def main(argv=None):
             print('FAILED-OBLIGATION %s: %s (%s)' % (f['id'], f['message'], (f.get('detail') or '')[:200]))
             print('VIOLATION property=%s replay=%s%s' % (pid, path, suffix))
         return 1
-    print('OK property=%s tier=%s obligations=%d discharged=%d known_findings=%d wall=%.1fs' % (pid, tier, nobl, discharged, len(known_hit), wall))
+    if tier == 'thorough' and not os.environ.get('VERIF_NO_SELFTEST') and REPO == '/repo':
+        # mutation self-test of the machinery (never raises an alarm: survivors => exit 2)
+        from . import muttest
+        os.environ['VERIF_NO_SELFTEST'] = '1'
+        res = muttest.run(pid, quiet=True)
+        bad = [r for r in res if r['status'] in ('survived', 'false-alarm')]
+        ev['coverage']['selftest'] = dict(mutants=len(res), as_expected=len([r for r in res if r['status'] == 'ok']),
+                                          stale=[r['name'] for r in res if r['status'] == 'stale'],
+                                          survivors=[r['name'] for r in bad], results=res)
+        ev['wall_s'] = round(time.time() - t0, 2)
+        json.dump(ev, open(os.path.join(EVDIR, pid + '.json'), 'w'), indent=1)
+        if bad:
+            print('UNDECIDED property=%s: mutation self-test: %s not as expected' % (pid, [r['name'] for r in bad]))
+            return 2
+        print('SELFTEST property=%s mutants=%d all as expected' % (pid, len(res)))
+    print('OK property=%s tier=%s obligations=%d discharged=%d known_findings=%d wall=%.1fs' % (pid, tier, nobl, discharged, len(known_hit), time.time() - t0))
     return 0
 
 
